@@ -20,6 +20,9 @@ import (
 func deepCopy(v interface{}) interface{} {
 	switch x := v.(type) {
 	case bson.D:
+		if x == nil {
+			return x
+		}
 		o := make(bson.D, len(x))
 		for i := range x {
 			o[i] = bson.E{Key: x[i].Key, Value: deepCopy(x[i].Value)}
@@ -38,6 +41,9 @@ func deepCopy(v interface{}) interface{} {
 		}
 		return o
 	case bson.A:
+		if x == nil {
+			return x
+		}
 		o := make(bson.A, len(x))
 		for i := range x {
 			o[i] = deepCopy(x[i])
@@ -50,6 +56,9 @@ func deepCopy(v interface{}) interface{} {
 		}
 		return o
 	case []bson.D:
+		if x == nil {
+			return x
+		}
 		o := make([]bson.D, len(x))
 		for i := range x {
 			o[i] = deepCopy(x[i]).(bson.D)
@@ -367,4 +376,41 @@ func AliasScenarios(e *Env) int {
 		n++
 	}
 	return n
+}
+
+// AliasHistory: after every call of a random history the arguments that were handed to the driver and the values it
+// handed back are overwritten in place; the database must not notice (Mutate events), and a call must leave its
+// arguments as they were.
+func AliasHistory(e *Env, steps int) {
+	for i := 0; i < steps; i++ {
+		c := e.RandomCall()
+		saved := deepCopy(c.Args)
+		e.Rets = nil
+		read := c.Op == "find" || c.Op == "findOne" || c.Op == "distinct" || c.Op == "count"
+		before := V{}
+		if read {
+			before = e.snapshot()
+		}
+		e.Do(c)
+		if read {
+			e.mutateEvent(c.Op, "read", before)
+		}
+		if len(c.Args) > 0 && !reflect.DeepEqual(saved, interface{}(c.Args)) {
+			e.finding("alias", "the call modified its arguments", V{"op": c.Op})
+		}
+		rets := e.Rets
+		pre := e.snapshot()
+		Scribble(c.Args)
+		for _, a := range c.Args {
+			if ds, ok := a.([]bson.D); ok {
+				Scribble(ds)
+			}
+		}
+		e.mutateEvent(c.Op, "arguments", pre)
+		pre = e.snapshot()
+		for _, r := range rets {
+			Scribble(r)
+		}
+		e.mutateEvent(c.Op, "results", pre)
+	}
 }
